@@ -108,6 +108,18 @@ claim("C15", "other",
       "Derive expansions are trusted to be field-wise.",
       "struct-literal/field-move census (HIR), derive census, trait-solver Freeze, MIR field-write census", "DESIGN.md section 4, C15")
 
+claim("C16", "other",
+      "Structural termination and losslessness of the tokenizer for all inputs: on every path of every sub-lexer loop each "
+      "consumed character is appended first (so token texts concatenate to the consumed input), a sub-lexer returns Some only "
+      "with non-empty text and None without consuming, every loop iteration that continues consumes a character, get() is "
+      "guarded by end(), next() is loop-free and returns None only after all four sub-lexers declined, and a decision table over "
+      "character classes shows that every possible first character is consumed by some sub-lexer. The quoted-text grouping "
+      "clause is decided by tabulating the extracted state machine against the documented rule on short tapes.",
+      "R1-R5 hold for all strings (path-universal). R6 (grouping) is a bounded tabulation over class representatives (body "
+      "length <= 3, 5 on the reduced alphabet; 4/6 in the thorough tier), not a proof for unbounded bodies. Character-class "
+      "predicates of std are modelled on representatives.",
+      "path-effect pairing rules (HIR paths) + decision tables by abstract interpretation over character classes", "DESIGN.md section 4, C16")
+
 claim("C17", "proof",
       "Proof by finite case analysis: the escape chain is one simultaneous per-character substitution h; the unescape loop is "
       "tabulated as a finite-state transducer over all characters that occur in either function plus representatives of every "
@@ -126,6 +138,17 @@ claim("C18", "other",
       "Trusts Eq/Hash coherence of std, ordered_float and the optional third-party payload types. Reflexivity/symmetry/"
       "transitivity then follow per variant from the payload's own Eq.",
       "match-arm census + resolved comparator/hasher pairing (HIR, type-directed)", "DESIGN.md section 4, C18")
+
+claim("C19", "other",
+      "The derive macro is analysed as a program transformer: its validity predicate is tabulated over character classes "
+      "(accepted names are [A-Za-z0-9_]*, hence quote-free), the per-variant predicate over attribute kinds x names x container "
+      "names (it validates exactly the name the variant renders), the generated fast path is shown to be emitted only under "
+      "that guard (flag initialised true, updated only by &= for every variant), the name sources (heck snake_case / PascalCase, "
+      "`Table` -> container name, rename, method, enum_def prefix/suffix/table_name) are checked structurally, and every "
+      "derive(Iden) expansion in the repository's test target is cross-checked against an independent snake_case.",
+      "Does not decide the transformation for all input programs beyond these guards and sources; heck is trusted (and "
+      "cross-checked on the in-repo expansions). Helper attributes are read from source text for the witness cross-check only.",
+      "decision tables by abstract interpretation + guard-placement rule on the macro's HIR + witness expansions", "DESIGN.md section 4, C19")
 
 claim("C20", "proof",
       "Every reachable non-generic ADT and alias of the crate is Send and Sync in the thread-safe configuration; each "
